@@ -4,4 +4,5 @@ CONSTANTS
   Dom <- DomEdgeT
   ClampBug = FALSE
   SizeBug = TRUE
+  DefBug = FALSE
 INVARIANTS SizeLaw
